@@ -96,7 +96,8 @@ private:
 
         for (Index i = k; i < m_ncv; i++)
         {
-            if (is_complex(m_ritz_val[i]) && is_conj(m_ritz_val[i], m_ritz_val[i + 1]))
+            // The last Ritz value has no successor to pair with
+            if (is_complex(m_ritz_val[i]) && i + 1 < m_ncv && is_conj(m_ritz_val[i], m_ritz_val[i + 1]))
             {
                 // H - mu * I = Q1 * R1
                 // H <- R1 * Q1 + mu * I = Q1' * H * Q1
